@@ -93,3 +93,36 @@ Proof.
   intro H. destruct (first_value_self_delimiting d H) as [A B0].
   apply (limit_bytes str first_value d d pad limit). split; assumption.
 Qed.
+
+(* ---------- never more than the limit is consumed ---------- *)
+
+Lemma consumed_loop_le fuel cap docend avail : consumed_loop fuel cap docend avail <= avail.
+Proof.
+  revert cap. induction fuel as [|f IH]; intro cap; simpl; [lia|].
+  destruct (docend <=? N.min cap avail); [lia|]. destruct (avail <=? cap); [lia|apply IH].
+Qed.
+
+Lemma consumed_loop_ge fuel cap docend avail :
+  docend <= avail -> docend <= consumed_loop fuel cap docend avail.
+Proof.
+  intro H. revert cap. induction fuel as [|f IH]; intro cap; simpl; [exact H|].
+  destruct (N.leb_spec docend (N.min cap avail)); [assumption|].
+  destruct (avail <=? cap); [exact H|apply IH].
+Qed.
+
+(* the client consumes at most MaxMetadataBytes (the default when <= 0) and at most the body;
+   a document that fits is consumed at least to its end *)
+Theorem consumed_of_spec limit docend total :
+  (Z.of_N (consumed_of limit docend total) <= eff_limit limit)%Z /\
+  consumed_of limit docend total <= total /\
+  (docend <= total -> (Z.of_N docend <= eff_limit limit)%Z -> docend <= consumed_of limit docend total).
+Proof.
+  pose proof (eff_limit_pos limit) as Hp. unfold consumed_of, consumed.
+  set (avail := N.min (Z.to_N (eff_limit limit)) total).
+  pose proof (consumed_loop_le 80 512 (if docend <=? avail then docend else avail + 1) avail) as L.
+  split; [|split].
+  - unfold avail in *. lia.
+  - unfold avail in *. lia.
+  - intros H1 H2. assert (A : docend <= avail) by (unfold avail; lia).
+    apply N.leb_le in A. rewrite A. apply consumed_loop_ge. now apply N.leb_le.
+Qed.
